@@ -32,6 +32,8 @@ TRUSTED = [
     "modelled: SystemInterpolator.__init__ (union, iRvec_map, re-embedding, key filter) and interpolate (mix, shifts)",
     "not modelled (oracle only): copy.deepcopy, Rvectors construction, set_pointgroup, evaluate_k, SystemInterpolatorSOC "
     "(its three inherited interpolations are checked on the real code at the matrix level)",
+    "the call-history state machine (runFresh: a fresh object per interpolate call; theorem interpolate_is_a_function, "
+    "counterexample memoised_interpolate_is_aliased) is tied to the code by the call-history oracle only, not by a driver line",
     "Python set iteration order: arbitrary - the theorems hold for every order; the correspondence uses the order the code produced",
 ]
 RULE = ("pairs of random Hermitian System_R on the same lattice: num_wann 1-4, 1-9 R-vectors each with equal, "
